@@ -22,6 +22,21 @@ class BodyError(Exception):
     pass
 
 
+def read_any(path, st):
+    """content of a file whatever its mode (a save with file_perms=0 leaves an unreadable file unless we are root)"""
+    try:
+        with fsio.REAL_IO_OPEN(path, "rb") as f:
+            return f.read()
+    except PermissionError:
+        mode = stat.S_IMODE(st.st_mode)
+        os.chmod(path, mode | 0o400)
+        try:
+            with fsio.REAL_IO_OPEN(path, "rb") as f:
+                return f.read()
+        finally:
+            os.chmod(path, mode)
+
+
 def chunks_for(body, text):
     if body == "none":
         cs = []
@@ -67,7 +82,7 @@ def run_killed(cfg, kill_at):
 
 
 def run(cfg, faults=None, keep_events=True, workdir=None, kill_at=None):
-    """cfg: overwrite, overwrite_part, rm_part_on_exc, text_mode, perms (0 = None), umask, dest_present, part_present,
+    """cfg: overwrite, overwrite_part, rm_part_on_exc, text_mode, perms (-1 = not given; 0 is the explicit mode 0), umask, dest_present, part_present,
     body, raise_at (-1 none), dest_appears."""
     from boltons import fileutils
     d = workdir or os.path.realpath(tempfile.mkdtemp(prefix="asave-"))
@@ -112,16 +127,14 @@ def run(cfg, faults=None, keep_events=True, workdir=None, kill_at=None):
             out = {}
             try:
                 st = fsio.REAL_LSTAT(dest)
-                with fsio.REAL_IO_OPEN(dest, "rb") as f:
-                    data = f.read()
+                data = read_any(dest, st)
                 out["dest"] = {"st": "new" if data == new and data != OLD else "old" if data == OLD else "other",
                                "mode": stat.S_IMODE(st.st_mode)}
             except FileNotFoundError:
                 out["dest"] = {"st": "absent", "mode": 0}
             try:
                 st = fsio.REAL_LSTAT(part)
-                with fsio.REAL_IO_OPEN(part, "rb") as f:
-                    data = f.read()
+                data = read_any(part, st)
                 leftover_link = cfg["part_present"] == "link" and st.st_ino == dest_ino.get("ino")
                 out["part"] = {"st": "stale" if data == STALE or leftover_link else "file", "size": len(data)}
             except FileNotFoundError:
@@ -129,7 +142,7 @@ def run(cfg, faults=None, keep_events=True, workdir=None, kill_at=None):
             return out
         kw = {"overwrite": cfg["overwrite"], "overwrite_part": cfg["overwrite_part"], "rm_part_on_exc": cfg["rm_part_on_exc"],
               "text_mode": cfg["text_mode"]}
-        if cfg["perms"]:
+        if cfg["perms"] >= 0:
             kw["file_perms"] = cfg["perms"]
         if other_dir:
             kw["part_file"] = part
